@@ -70,7 +70,7 @@ SINGLE = {
         "runs": (1600, 40000),
     },
     "C09": {
-        "profile": "C09",
+        "profile": "C09", "level": "fault_enumeration",
         "rule": "every outbound frame of every seeded history is a crash point: the server connection's transaction "
                 "flag is inspected and, when set (and on every 16th frame regardless), its view is compared with an "
                 "independent reader's; non-trivial = the run emitted >=3 frames of type "
